@@ -12,7 +12,7 @@ import json
 import os
 import random
 
-from common import Report, Violation, parallel_map, h, run_sentinels, load_known, VERIF
+from common import Report, Violation, parallel_map, h, run_sentinels, load_known, VERIF, panic_site
 from gen import gen_schema, setup_statements, QueryGen
 from sqlcase import RL, DISK_LAYOUTS, ms, ordered_equal, norm_rows
 
@@ -69,7 +69,7 @@ def judge_query(rl, sql, order):
     if not ref["ok"]:
         return None, 0, 1, opt
     if not opt["ok"]:
-        pan = (opt.get("panics") or [""])[0].split("|")[0].replace("/repo/", "")
+        pan = panic_site((opt.get("panics") or [""])[0]) if opt.get("panics") else ""
         from c05 import err_class
         sig = "optimized-fails:" + (pan or err_class(opt.get("err", "")))
         return dict(signature=sig, what=f"{sql[:200]}: unoptimized ok ({len(ref['rows'])} rows), optimized: {opt.get('err', '')[:80]} {opt.get('panics')}", sql=sql), 0, 0, opt
